@@ -55,6 +55,14 @@ def has_fixed_length(name):
     return canon(name) in ('bool', 'bfloat', 'bfloatle')
 
 
+RAW = []   # objects a route produced before the final conversion (property-assignment targets, pack results)
+
+
+def _raw(x):
+    RAW.append(x)
+    return x
+
+
 def create(bs, route, name, n, v, style, clsname):
     c = cls_of(clsname)
     L = token_len(name, n)
@@ -74,11 +82,11 @@ def create(bs, route, name, n, v, style, clsname):
     if route == 'setattr_name':
         a = cls_of(MUTABLE[style % 2])('0b101')
         setattr(a, name if (has_fixed_length(name) and style % 2) else f'{name}{L}', pv)
-        return c(a)
+        return c(_raw(a))
     if route == 'setattr_existing':
         a = cls_of(MUTABLE[style % 2])(n)
         setattr(a, name, pv)
-        return c(a)
+        return c(_raw(a))
     if route in ('token_colon', 'token_plain', 'token_nolen'):
         if not text_ok:
             return c(bs.Dtype(name, L).build(pv))
@@ -93,11 +101,11 @@ def create(bs, route, name, n, v, style, clsname):
     if route == 'dtype_build1':
         return c(bs.Dtype(f'{name}{L}').build(pv))
     if route == 'pack':
-        return c(bs.pack(f'{name}:{L}', pv))
+        return c(_raw(bs.pack(f'{name}:{L}', pv)))
     if route == 'pack_kwlen':
-        return c(bs.pack(f'{name}:n', pv, n=L))
+        return c(_raw(bs.pack(f'{name}:n', pv, n=L)))
     if route == 'pack_kwval':
-        return c(bs.pack(f'{name}:{L}=val', val=pv))
+        return c(_raw(bs.pack(f'{name}:{L}=val', val=pv)))
     if route == 'pack_embedded':
         if not text_ok:
             return c(bs.pack(f'{name}{L}', pv))
@@ -162,7 +170,7 @@ def create_case(draw, tier):
         v = float(draw(st.integers(-100, 100)))
     else:
         v = draw(codecs.value_for(name, n))
-    case = {'name': name, 'n': n, 'route': draw(st.sampled_from(CREATE_ROUTES)), 'style': draw(st.integers(0, 7)), 'cls': draw(cls_st)}
+    case = {'name': name, 'n': n, 'route': draw(st.sampled_from(CREATE_ROUTES)), 'route2': draw(st.sampled_from(CREATE_ROUTES)), 'style': draw(st.integers(0, 7)), 'cls': draw(cls_st)}
     case['value'] = v if not isinstance(v, bytes) else {'bytes': v.hex()}
     if isinstance(v, float):
         case['value'] = {'float': v.hex() if not math.isnan(v) else 'nan', 'neg': math.copysign(1, v) < 0}
@@ -184,6 +192,7 @@ def run_create(case):
     name, n, v = case['name'], case['n'], unwrap(case['value'])
     exp = encode(name, v, n)
     require(len(exp) == n, 'HARNESS: reference encoder length')
+    del RAW[:]
     res = attempt(create, bs, case['route'], name, n, v, case['style'], case['cls'])
     require(not is_raised(res), 'creating from an in-range value raised', got=res, case=case)
     require(len(res) == n, 'built object does not have exactly the requested number of bits', got=len(res), expected=n, case=case)
@@ -197,6 +206,17 @@ def run_create(case):
     else:
         expv = decode(name, exp)
         require(not is_raised(back) and same_value(back, expv), 'interpreting the built bits does not return the value', got=back, expected=expv, case=case)
+    # history independence of creation: edit every mutable object the route handed out (in place), then build the same
+    # (dtype, length, value) again through another route - it must still be the canonical encoding
+    for o in RAW + [res]:
+        if isinstance(o, bs.BitArray) and len(o):
+            o.invert()
+            o.append('0b1')
+    del RAW[:]
+    again = attempt(create, bs, case.get('route2', 'kw_name'), name, n, v, case['style'], case['cls'])
+    del RAW[:]
+    require(not is_raised(again) and again.bin == exp, 'building the same (dtype, length, value) again after a previously built object was modified '
+            'does not give the canonical encoding', got=again if is_raised(again) else again.bin[:96], expected=exp[:96], case=case)
     nt = n not in (8, 16, 32, 64) or boundary_value(name, n, v) or case['route'] != 'kw_length'
     return {'nt': nt, 'labels': [name, case['route'], case['cls']]}
 
